@@ -489,6 +489,19 @@ def main():
     # (the operator traits of C17, the num-traits / num-integer impls of C18): `mod.NEIGHBOURS = {"C17": regex, ...}` makes
     # this run include the neighbour generator's requests whose operation matches, answered by the neighbour's harness bin.
     neighbour_cases, neighbour_route = [], {}
+    if a.replay:
+        # a recorded request that came from a neighbour's vocabulary is answered by the neighbour's bin again
+        try:
+            rp_lines = [c["line"] for c in json.load(open(a.replay)).get("cases", []) if "line" in c]
+        except Exception:
+            rp_lines = []
+        for npid, rx in (getattr(mod, "NEIGHBOURS", None) or {}).items():
+            nmod = importlib.import_module("gen." + npid.lower())
+            nbin = getattr(nmod, "HARNESS_BIN", npid.lower())
+            nroute = getattr(nmod, "ROUTE", None) or (lambda l, _b=nbin: _b)
+            for l in rp_lines:
+                if re.match(rx, l) and l not in neighbour_route:
+                    neighbour_route[l] = nroute(l)
     if not a.replay:
         for npid, rx in (getattr(mod, "NEIGHBOURS", None) or {}).items():
             nmod = importlib.import_module("gen." + npid.lower())
